@@ -287,15 +287,16 @@ def run(ctx: Context):
         sub = None
         fnorm = FlowNorm(fn)
         rets = fn.cfg().find(is_return)
-        for n in rets:
-            for x in ast.walk(fnorm.resolve(n, n.ast.value)):
-                if isinstance(x, ast.Subscript):
-                    d = resolve_dict(fnorm, n, x.value)
-                    if d is not None:
-                        try:
-                            tm, sub, subnode = evaluate(idx, fn, d, env), x, n
-                        except NotConstant as e:
-                            raise AnalysisError("parse_duration: cannot fold the unit table (%s)" % e)
+        for n in fn.cfg().nodes:
+            for ex in node_exprs(n):
+                for x in own_nodes(ex):
+                    if isinstance(x, ast.Subscript):
+                        d = resolve_dict(fnorm, n, x.value)
+                        if d is not None:
+                            try:
+                                tm, sub, subnode = evaluate(idx, fn, d, env), x, n
+                            except NotConstant as e:
+                                raise AnalysisError("parse_duration: cannot fold the unit table (%s)" % e)
         if tm is None:
             raise AnchorVanished("parse_duration: no constant unit table subscripted in the result")
         r.site(fn, sub, "time_map")
@@ -330,7 +331,7 @@ def run(ctx: Context):
                 ops = [fnorm.resolve(n, v.left), fnorm.resolve(n, v.right)]
                 nums = [o for o in ops if isinstance(o, ast.Call) and call_name(o) == "int" and len(o.args) == 1
                         and group_index(fnorm.norm(n, o.args[0])) == 1]
-                tabs = [o for o in ops if isinstance(o, ast.Subscript)]
+                tabs = [o for o in ops if o is sub]
                 ok = len(nums) == 1 and len(tabs) == 1
             r.require(ok, fn, fn.loc(n.ast), "result %s is not int(<number group>) * time_map[<unit>]" % src(fn, n.ast.value))
         dur = {"pattern": pattern, "flags": flags, "table": tmv, "fn": fn}
@@ -338,6 +339,8 @@ def run(ctx: Context):
     # =================================================================== 2
     with ctx.rule("C48.2", "R11", "every duration spelling documented in docs/garbage-collection.rst is accepted by "
                   "parse_duration's grammar with the documented value", expected=5) as r:
+        if not dur:
+            raise AnalysisError("the duration grammar could not be extracted (see C48.1)")
         fn = dur["fn"]
         doc = read_repo_text("docs/garbage-collection.rst")
         spellings = literal_block_after(doc, r"one of the following", "duration examples (garbage-collection.rst)")
@@ -489,7 +492,7 @@ def run(ctx: Context):
         size = {"pattern": pattern, "flags": flags, "xform": xform, "fn": fn, "meaning": meaning, "reached": reached,
                 "table": table}
 
-    size_how = call_name(the_match_call(size["fn"])).split(".")[1]
+    size_how = call_name(the_match_call(size["fn"])).split(".")[1] if size else None
 
     def size_parse(sp, how=size_how):
         """Model of parse_abbreviated_size on one spelling: value or None when the grammar rejects it."""
@@ -506,6 +509,8 @@ def run(ctx: Context):
     # =================================================================== 4
     with ctx.rule("C48.4", "R11", "every reserved_space spelling documented in docs/configuration.rst is accepted by "
                   "parse_abbreviated_size with the documented value", expected=8) as r:
+        if not size:
+            raise AnalysisError("the size grammar could not be extracted (see C48.3)")
         fn = size["fn"]
         doc = read_repo_text("docs/configuration.rst")
         m = re.search(r"^``reserved_space = .*?(?=^``[a-z_.]+ ?=)", doc, re.S | re.M)
@@ -631,6 +636,8 @@ def run(ctx: Context):
     # =================================================================== 6
     with ctx.rule("C48.6", "R11", "the date grammar consumes the whole value: a cutoff date followed by other text is "
                   "rejected, not read as a different time", expected=1) as r:
+        if not date:
+            raise AnalysisError("the date grammar could not be extracted (see C48.5)")
         iso, mc, fn = date["iso"], date["mc"], date["fn"]
         r.site(iso, mc, "end of pattern")
         full = date["how"] == "fullmatch" or regex_end_anchor(date["rast"]) is not None
@@ -651,6 +658,8 @@ def run(ctx: Context):
     # =================================================================== 7
     with ctx.rule("C48.7", "R11", "every output template of abbreviate_space lies in the grammar of parse_abbreviated_size",
                   expected=2) as r:
+        if not size:
+            raise AnalysisError("the size grammar could not be extracted (see C48.3)")
         pr = idx.func(AB + ":abbreviate_space")
         fns = [pr] + list(pr.nested.values())
         consts = set()
@@ -695,13 +704,12 @@ def run(ctx: Context):
     with ctx.rule("C48.8", "R11/R4", "client.py: reserved_space, expire.override_lease_duration and expire.cutoff_date reach "
                   "StorageServer through parse_abbreviated_size, parse_duration and parse_date respectively", expected=3) as r:
         cg = get_callgraph(idx)
-        sites = [cs for cs in cg.calls_named("parse_abbreviated_size") if cs.fn.module.name == "allmydata.client"]
+        sites = [cs for cs in cg.calls_named("StorageServer") if cs.fn.module.name == "allmydata.client"
+                 and kwarg(cs.call, "reserved_space") is not None]
         if len(sites) != 1:
-            raise AnchorVanished("client.py no longer calls parse_abbreviated_size exactly once")
+            raise AnchorVanished("client.py no longer constructs StorageServer(reserved_space=...) exactly once")
         fn = sites[0].fn
-        ss = [c for c in calls_in_func(fn, "StorageServer")]
-        if len(ss) != 1:
-            raise AnchorVanished("%s does not construct StorageServer" % fn.qual)
+        ss = [sites[0].call]
         plan = (("reserved_space", "parse_abbreviated_size", "reserved_space"),
                 ("expiration_override_lease_duration", "parse_duration", "expire.override_lease_duration"),
                 ("expiration_cutoff_date", "parse_date", "expire.cutoff_date"))
